@@ -159,6 +159,22 @@ def gen(tier, rng):
                     if quick and rng.random() < 0.5: continue
                     out.append(mk(False, ["expand"], values, [first] + follow, VARSETS[0]))
                     out.append(mk(True, ["re", "expand"], values, [first] + follow, VARSETS[0]))
+    # 3d. value LISTS that mix a query-expression placeholder with literals and with other placeholders (1-3 further
+    #     values), with and without `all`; every case runs on a backend without and on two backends with in-expressions
+    mixes = [["%x%", "v1"], ["v1", "%x%"], ["%x%", "v1", "2"], ["%x%", "%y%"], ["%y%", "%x%"], ["%x%", "a%y%"], ["%x%", "%y%", "lit", "3"],
+             ["%x%", "%z%"], ["v1", "2"], ["%x%", "w*", "q?"], ["%x%", "%x%"], ["%x%"]]
+    qpipes = [[it("qe", expr="{field} in list({id})")], [it("qe", expr="{field} in list({id})", inc=["x"]), it("vl")],
+              [it("vl", inc=["y", "z"]), it("qe", expr="{field} in list({id})")], [it("qe", expr="{field} lookup {id}", exc=["y"]), it("vl", inc=["y"])],
+              [it("vl", exc=["x"]), it("qe", expr="lookup({id})", mp={"x": "XL"})], [it("qe", inc=["x"], expr="{id}"), it("wc")],
+              [it("wc", inc=["y"]), it("qe", expr="{field} in list({id})")], [it("qe", expr="{field} in list({id})", inc=["x"])]]
+    for p in qpipes:
+        for values in mixes:
+            for vs in (VARSETS[0], VARSETS[2], VARSETS[8]):
+                for all_ in (False, True):
+                    out.append(mk(True, ["expand"], values, p, vs, all_=all_))
+                    if quick and rng.random() < 0.6: continue
+                    out.append(mk(False, ["expand"], values, p, vs, all_=all_))
+                    out.append(mk(True, ["expand", "contains"], values, p, vs, all_=all_))
     # 4. random
     for _ in range(1500 if quick else 30000):
         regex = rng.random() < 0.3
@@ -236,7 +252,7 @@ def to_coq(c, r):
         pipe = "(@None (list value))" if any(v is None for v in vs) else f"(@Some (list value) {clist(vs)})"
     else:
         pipe = "(@None (list value))"
-    return f"({case}, {pipe}, {cout(r['q'])}, {cout(r['stock'])})"
+    return f"({case}, {pipe}, {cout(r['q'])}, {cout(r['qin'])}, {cout(r['stock'])})"
 
 # ---------------------------------------------------------------------------------------------
 def known(c, r):
@@ -257,7 +273,7 @@ def py_oracle(c, r):
     """a SigmaPlaceholderError names a placeholder that is really left in the values (computed from the
     implementation's own outputs)."""
     if "q" not in r: return None
-    for k in ("q", "stock"):
+    for k in ("q", "qin", "stock"):
         o = r[k]
         if o.get("exc") == "SigmaPlaceholderError":
             m = re.search(r"unhandled placeholder '(.*)' into query", o.get("msg", ""), flags=re.S)
@@ -415,5 +431,6 @@ PROPERTY = Property(
                  "look-ahead reader Spec.Expand.xread; their agreement is checked by the correspondence, not proved",
                  "str.format is modelled for templates whose only replacement fields are {field} and {id}; Python str() of int/float/bool variable values is computed by the harness",
                  "the query text is modelled for the verification backend C17Backend of impl/c17.py (no in-lists, no startswith/endswith/contains operators, escape character escaped); "
-                 "for the stock TextQueryTestBackend only the outcome class and the number of percent signs are checked"],
+                 "the same backend with in-expressions enabled (C17InBackend) is modelled and read back as well; "
+                 "for the stock TextQueryTestBackend the outcome class and the number of percent signs and braces in the whole query are checked"],
 )
